@@ -56,6 +56,9 @@ def run(tier, seed):
                   "mpi_reordered", "mpi_collective_delayed", "end_state_compared"):
             if hc.counters_nz(m, k) == 0:
                 raise vc.EngineError(f"vacuous: no execution with '{k}'")
+    # remote messages and remote anti-messages under EVERY delivery order (complete state spaces), real mpi.c send/receive paths
+    rreps_, rm_, rviol_ = hc.procr_part(PID, d, tier)
+    viol += rviol_
     n = vc.triage(PID, viol)
     cov = hc.coverage_from(m, reps, "remote_anti_sent",
                            "as C01 with 2 (thorough: also 3) ranks: symbol-renamed copies of the whole core in one process, the real "
@@ -65,6 +68,7 @@ def run(tier, seed):
                            "scheduling decisions and <= d deviations; LPs spread over the ranks by the runtime's own partitioning; oracles "
                            "E, K, G (agreement across ranks, nothing below a reported GVT queued or in MPI flight), M, R, T; non-trivial = "
                            "execution with >= 1 remote anti-message")
+    hc.add_procr(cov, rm_, rreps_)
     vc.write_evidence(PID, tier, "model_checking", cov,
                       ["the in-process MPI is my reading of MPI-3.1 (non-overtaking per sender thread and destination, eager copies, "
                        "collectives complete any time after all ranks posted); real OpenMPI progress behaviour is not explored",
@@ -75,5 +79,7 @@ def run(tier, seed):
 
 def replay(path):
     d = vc.fresh_dir(PID + "_replay")
+    if hc.is_procr_replay(path):
+        return vc.rsched_replay(hc.build_proc(d, name="h_procr", remote=True), path)
     ranks = 3 if os.path.basename(path).startswith("r3") else 2
     return vc.rsched_replay(hc.build(d, ranks=ranks), path)
